@@ -205,7 +205,7 @@ class CallMixin:
             if name == 'join':
                 if args and args[0].k in ('tuple', 'list') and all(x.is_const for x in args[0].a[0]):
                     return [(C(t.join(str(x.val) for x in args[0].a[0])), st)]
-                return [(V('str', sqlmod.hole('join')), st)]
+                return [(V('str', sqlmod.hole('join'), tuple(args)), st)]
             if recv.is_const and all(a.is_const for a in args) and name in (
                     'startswith', 'endswith', 'upper', 'lower', 'strip', 'split', 'encode', 'rfind', 'find', 'replace'):
                 try:
@@ -437,6 +437,11 @@ class CallMixin:
         f = st.facts.get(('truthy', v))
         if f is not None:
             return f
+        if v.k == 'term' and v.a[0] == 'range' and all(x.is_const for x in v.a[1]):
+            try:
+                return len(range(*[x.val for x in v.a[1]])) > 0
+            except Exception:
+                return None
         if v.k in ('now', 'sqlexec', 'cleanupfn', 'bound', 'func', 'cls', 'new', 'self'):
             return True
         return None
